@@ -371,6 +371,8 @@ def run_clean(ctx) -> RuleResult:
         coefs = value.elts[1]
         if not (isinstance(coefs, ast.List) and len(coefs.elts) == 1):
             continue
+        if not (isinstance(coefs.elts[0], ast.Call) and not is_S(coefs.elts[0])):
+            continue  # a kept input coefficient (accumulate form after one iteration), not the fall-back
         verdict, why = _zero_like_input(ctx, module, coefs.elts[0])
         if verdict is None:
             raise AnalysisError(f"remove_redundant_coefficients: fall-back coefficient {_txt(coefs.elts[0])[:80]} not recognised")
